@@ -280,6 +280,8 @@ def run(ctx):
     part = core.fan_out(ctx, _rows_chunk, chunks)
     part.merge(core.fan_out(ctx, _boundary_chunk, core.split(boundary_rows(ctx), 64)))
     _cannot_move(part)
+    from .. import calcseq                 # pylint: disable=import-outside-toplevel
+    part.merge(calcseq.explore(ctx, ['calculate_lm']))
     cnt = part.counters
     coverage = {
         "states": cnt.get("states", 0),
@@ -307,6 +309,7 @@ def run(ctx):
         "model_conformance_checks": cnt.get("model_conformance_checks", 0),
         "mismatches_by_class": {k: v for k, v in sorted(cnt.items()) if k.startswith("mismatch_")},
         "alphabet_sizes": {"rate": len(rates), "accel": len(accels), "accum": len(accums)},
+        "call_histories_siblings_then_twice": cnt.get("calc_histories", 0),
         "exhaustive": True,
     }
     assumptions = [
@@ -318,6 +321,9 @@ def run(ctx):
 
 
 def replay(case):
+    if case.get("kind") == "calc_history":
+        from .. import calcseq             # pylint: disable=import-outside-toplevel
+        return calcseq.replay(case)
     steps, rate, accel, accum = case["steps"], case["rate"], case["accel"], case["accum"]
     if case["kind"] == "cannot":
         ebb_calc, _m = _lib()
